@@ -81,6 +81,12 @@ def pushes(w, side):
     return out
 
 
+def reorders(w, coll):
+    """in-place reorderings (sort*, reverse) of the collection term `coll` recorded in world w"""
+    cs = show(coll)
+    return [e for e in w.trace if e['kind'] == 'reorder' and show(e['args'][0]) == cs]
+
+
 def section_calls(w):
     out = []
     for e in w.trace:
